@@ -59,7 +59,7 @@ structure Opts where
   convs : List Target := []
 deriving Repr
 
-/-- `parseOptions`: pairs from index 1 while `i < len(args)-1`; `none` = panic -/
+/-- `parseOptions`: pairs from index 1; a single trailing argument is a panic; `none` = panic -/
 def parsePairs (fs : FS) : List String → Opts → Option Opts
   | sw :: v :: rest, o =>
     if sw == "-i" || sw == "--in" then
@@ -71,7 +71,8 @@ def parsePairs (fs : FS) : List String → Opts → Option Opts
       | some t => parsePairs fs rest { o with convs := o.convs ++ [t] }
       | none => none
     else none
-  | _, o => some o            -- an odd trailing argument is not looked at
+  | [], o => some o
+  | [_], _ => none            -- an option without its value (fix: it had been ignored)
 
 def parseOptions (fs : FS) (args : List String) : Option Opts :=
   match parsePairs fs args {} with
